@@ -547,10 +547,12 @@ pub fn run_hs(cfg: &HsCfg, sc: &mut Sc) -> HsTrace {
                 Fault::WriteOversize => {
                     sc.count("fault.write_oversize");
                     // one to sixteen bytes over the limit, into buffers just past 65535 bytes and generous ones
-                    let over = [1usize, 1, 2, 15, 16][r.below(5)];
+                    // ... and payloads whose own length is past 65535 and past 65536 (a narrowing of the payload length
+                    // would make them look small)
+                    let over = [1usize, 1, 2, 15, 16, 1 + overhead, 17 + overhead, 4465 + overhead][r.below(8)];
                     let big = 65535 + over - overhead;
                     let p = r.bytes(big);
-                    let wcap = [70000usize, 65536, 65535 + over, 65535 + over + 15, 65551, 65552, 131070][r.below(7)];
+                    let wcap = [70000usize + overhead, 65536 + over, 65535 + over, 65535 + over + 15, 65551 + over, 65552 + over, 131070 + overhead][r.below(7)];
                     let o = sc.ex.hs_write(w, &p, wcap);
                     sc.check_panic(&o, "hs_write oversize");
                     if o.err() != Some("Input") {
